@@ -21,10 +21,10 @@ meta.json}` and applied with `git -C /repo apply`; `tools/seedrun.sh <patch> <ID
 the named checks and restores the tree; `tools/seedmatrix.sh` runs them all and writes `seeded/matrix.tsv`
 (`tools/seedrun_wt.sh` / `tools/seedmatrix_par.sh` do the same on scratch worktrees through `VERIF_REPO`, leaving `/repo`
 alone). Round 1 = ids ending in a / b, round 2 (authors were told what round 1 had tried and asked for something
-different) = c / d, round 3 = e / f, round 4 = g / h, round 5 = i / j and round 6 = k / l (each told everything tried
+different) = c / d, round 3 = e / f, round 4 = g / h, round 5 = i / j, round 6 = k / l and round 7 = m / n (each told everything tried
 before, asked for subtler changes in places nobody had touched - from round 5 on for changes that need an interleaving,
 a crash point, a history or a non-default configuration to show; rounds 3 to 6 were written against the tree as repaired
-by then; the demonstrations of round 6 are runnable and were re-run by me, 8.8). Patches whose context later repairs moved
+by then; the demonstrations of rounds 6 and 7 are runnable and were re-run by me, 8.8 and 8.9). Patches whose context later repairs moved
 were re-created on the repaired tree (`patch.orig.diff` = as delivered). Every `meta.json` carries, under `confirmed`,
 what I ran myself for that seed (`tools/seedconfirm.py`: applies to the current tree, builds, pinned suite passes) and
 the verdicts of the checks.
